@@ -33,6 +33,51 @@ def schema_from(sj):
     return {"types": types, "roots": {"query": "Query"}, "explicit_roots": False}
 
 
+DEFAULTS_SCHEMA = '''type Query { x: Int }
+input Recipient { email: String! n: Int }
+input Message { to: Recipient! text: String urgent: Boolean }
+'''
+
+
+def defaults_part(ck, workdir, selftest=False):
+    """growth: Variables::default_*() against Defaults.tla"""
+    res = vlib.run_tlc("MC_C04d", "MC_C04d.cfg", timeout=300)
+    ck.add_tlc(res)
+    vlib.tlc_must_pass(res)
+    cases = sorted(res["cases"]["DEFAULT"], key=lambda c: json.dumps(c, sort_keys=True))
+    sp = os.path.join(workdir, "defaults.graphql")
+    vlib.write_if_changed(sp, DEFAULTS_SCHEMA)
+    q = lambda t: t.replace("$q", '"')
+    decls = ["$d%d: %s%s = %s" % (i, c["base"], "!" if c["nonnull"] else "", q(c["text"])) for i, c in enumerate(cases)]
+    query = "query MyOp(%s) {\n  x\n}\n" % ", ".join(decls)
+    rs, _ = vlib.gqlv("gen", [{"id": "d", "schema_path": sp, "query": query, "want_tokens": True,
+                               "options": {"mode": "cli", "module_visibility": "pub", "variables_derives": "Debug"}}])
+    ck.count()
+    if rs[0]["status"] != "ok":
+        ck.violation("defaults-gen", {"query": query, "observed": rs[0]}, "C04(defaults): generation failed: %s" % rs[0].get("msg"), case_key="defaults-gen")
+        return
+    helper = "\npub fn verif_defaults() -> serde_json::Value { serde_json::json!({%s}) }\n" % ", ".join(
+        '"d%d": my_op::Variables::default_d%d()' % (i, i) for i in range(len(cases)))
+    cons = Consumers("c04d", nbins=1)
+    cons.add_case("defaults_case", PRELUDE + rs[0]["tokens"] + helper, "MyOp", kinds=("defaults",))
+    errs = cons.build()
+    if errs:
+        ck.violation("defaults-compile", {"query": query, "errors": list(errs.values())[0][:4]},
+                     "C04(defaults): default value functions do not compile: %s" % list(errs.values())[0][0][:200], case_key="defaults-compile")
+        return
+    o = cons.run([{"id": "d", "case": "defaults_case", "kind": "defaults", "input": None}]).get("d", {})
+    for i, c in enumerate(cases):
+        ck.count()
+        want = json.loads(json.dumps(payload.decode(c["expect"])).replace("$q", '\\"'))
+        if selftest and i == 0:
+            want = "selftest"
+        got = o.get("d%d" % i, "<missing>") if isinstance(o, dict) else "<no result: %s>" % o
+        if got != want:
+            ck.violation("default-%d" % i, {"declaration": decls[i], "expected": want, "observed": got},
+                         "C04(defaults): `%s`: default_d%d() is %s, expected %s" % (decls[i], i, json.dumps(got)[:120], json.dumps(want)[:120]),
+                         case_key="default|%s" % c["base"])
+
+
 def main(tier, replay=None, selftest=False):
     ck = Check(PROP, tier)
     vlib.build_harness()
@@ -117,6 +162,7 @@ def main(tier, replay=None, selftest=False):
             ck.violation(name, rep, "C04 (%s, skip_none=%s, %s; %s at %s): serialised variables differ from the reference: %s\nexpected %s\ngot      %s" % (
                 c["base"], skip, norm, v["alt"]["a"], v["path"], diff, json.dumps(want)[:400], json.dumps(got)[:400]),
                 case_key=key, signature=diff)
+    defaults_part(ck, workdir, selftest)
     ck.assumptions += ["input-type universe of InputsExec.tla (Filter: nested / recursive / keyword and mixed-case member names; By: @oneOf with scalar, list, enum and object members)",
                        "assignments within Hamming distance 1 of the baseline, plus all-None; nested objects are cut by Fuel"]
     return ck.finish(exhaustive=True, rule="9 base types x every type expression up to list depth %d (one less for input objects) x assignments x skip_serializing_none x normalization" % (2 if tier == "quick" else 3))
